@@ -13,22 +13,23 @@ Trace == ndJsonDeserialize("trace.ndjson")
 VARIABLES l, cfg, reg, rep, on
 vars == <<l, cfg, reg, rep, on>>
 Genesis == [view |-> 0, parent |-> -1, qc |-> -1, qcv |-> 0, by |-> 0]
-NoCfg == [n |-> 1, q |-> 1, leaders |-> <<1>>, rs |-> ""]
+NoCfg == [n |-> 1, q |-> 1, leaders |-> <<1>>, rs |-> "", agg |-> FALSE]
 Init == l = 0 /\ cfg = NoCfg /\ reg = (0 :> Genesis) /\ rep = <<>> /\ on = FALSE
 Line == Trace[l + 1]
 AddBlocks(r, new) == [i \in DOMAIN r \cup {new[j].id : j \in 1..Len(new)} |->
                         IF i \in DOMAIN r THEN r[i]
                         ELSE LET b == new[CHOOSE j \in 1..Len(new) : new[j].id = i]
                              IN [view |-> b.view, parent |-> b.parent, qc |-> b.qc, qcv |-> b.qcv, by |-> b.by]]
-Si(x) == [qc |-> x.qc, tc |-> x.tc]
+QcsOf(pairs) == {pairs[i][2] : i \in 1..Len(pairs)}
+Si(x) == [qc |-> x.qc, tc |-> x.tc, agg |-> x.agg, aggqcs |-> QcsOf(x.aggqcs)]
 EvOf(ev) ==
-    CASE ev.type = "propose" -> [type |-> "propose", block |-> ev.block, from |-> ev.from]
+    CASE ev.type = "propose" -> [type |-> "propose", block |-> ev.block, from |-> ev.from, agg |-> [v |-> ev.aggv, qcs |-> QcsOf(ev.aggqcs)]]
       [] ev.type = "vote" -> [type |-> "vote", block |-> ev.block, from |-> ev.from, deferred |-> FALSE]
       [] ev.type = "timeout" -> [type |-> "timeout", from |-> ev.from, view |-> ev.view, si |-> Si(ev.si)]
       [] ev.type = "newview" -> [type |-> "newview", from |-> ev.from, si |-> Si(ev.si)]
       [] ev.type = "localtimeout" -> [type |-> "localtimeout", view |-> ev.view]
       [] OTHER -> [type |-> "other"]
-Env(r2) == [n |-> cfg.n, q |-> cfg.q, leaders |-> cfg.leaders, rs |-> cfg.rs, reg |-> r2,
+Env(r2) == [n |-> cfg.n, q |-> cfg.q, leaders |-> cfg.leaders, rs |-> cfg.rs, agg |-> cfg.agg, reg |-> r2,
             avail |-> {Line.fetch[i][1] : i \in {j \in 1..Len(Line.fetch) : Line.fetch[j][2]}}, newb |-> Line.new]
 Modelled == cfg.rs \in {"chainedhotstuff", "simplehotstuff"}
 Predict(r2) ==
@@ -39,10 +40,10 @@ Step ==
     /\ l < Len(Trace)
     /\ l' = l + 1
     /\ CASE Line.op = "init" ->
-              /\ cfg' = [n |-> Line.n, q |-> Line.q, leaders |-> Line.leaders, rs |-> Line.rs]
+              /\ cfg' = [n |-> Line.n, q |-> Line.q, leaders |-> Line.leaders, rs |-> Line.rs, agg |-> Line.agg]
               /\ reg' = (0 :> Genesis)
               /\ rep' = [i \in 1..Line.n |-> H!InitReplica(i)]
-              /\ on' = ((Line.byz = <<>> \/ Line.crashOnly) /\ Line.rs \in {"chainedhotstuff", "simplehotstuff"})
+              /\ on' = ((Line.byz = <<>> \/ Line.crashOnly) /\ Line.rs \in {"chainedhotstuff", "simplehotstuff", "fasthotstuff"})
          [] Line.op = "byz" -> on' = FALSE /\ reg' = AddBlocks(reg, Line.new) /\ UNCHANGED <<cfg, rep>>
          [] Line.op \in {"relead", "heal"} -> cfg' = [cfg EXCEPT !.leaders = Line.leaders] /\ UNCHANGED <<reg, rep, on>>
          [] Line.op = "step" ->
@@ -55,14 +56,15 @@ Spec == Init /\ [][Step]_vars
 
 \* ---- what the log shows, in the model's terms ------------------------------------------------------------
 OutKey(m) ==
-    CASE m.type = "propose" -> <<"propose", m.to, m.block>>
+    CASE m.type = "propose" -> <<"propose", m.to, m.block, IF "aggv" \in DOMAIN m THEN m.aggv ELSE m.agg>>
       [] m.type = "vote" -> <<"vote", m.to, m.block>>
-      [] m.type = "timeout" -> <<"timeout", m.to, m.view, m.si.qc, m.si.tc>>
-      [] m.type = "newview" -> <<"newview", m.to, m.si.qc, m.si.tc>>
+      [] m.type = "timeout" -> <<"timeout", m.to, m.view, m.si.qc, m.si.tc, m.si.agg>>
+      [] m.type = "newview" -> <<"newview", m.to, m.si.qc, m.si.tc, m.si.agg>>
       [] OTHER -> <<m.type>>
 Keys(seq) == [i \in 1..Len(seq) |-> OutKey(seq[i])]
 Pairs(seq) == [i \in 1..Len(seq) |-> <<seq[i][1], seq[i][2]>>]
-Shown(s, r) == [view |-> s.view, hqc |-> s.hqc, hqcv |-> r[s.hqc].view, htc |-> s.htc, lv |-> s.lv, lock |-> s.lock, committed |-> s.committed,
+Shown(s, r) == [view |-> s.view, hqc |-> s.hqc, hqcv |-> r[s.hqc].view, htc |-> s.htc, lv |-> s.lv,
+                lock |-> IF cfg.rs = "fasthotstuff" THEN -1 ELSE s.lock, committed |-> s.committed,
                 signed |-> Pairs(s.signed), commits |-> s.commits, vcs |-> Pairs(s.vcs), out |-> Keys(s.out), miss |-> s.miss]
 Logged == [view |-> Line.post.view, hqc |-> Line.post.hqc, hqcv |-> Line.post.hqcv, htc |-> Line.post.htc, lv |-> Line.post.lv, lock |-> Line.post.lock,
            committed |-> Line.post.committed, signed |-> Pairs(Line.signed), commits |-> Line.commits, vcs |-> Pairs(Line.vcs), out |-> Keys(Line.out), miss |-> FALSE]
